@@ -19,7 +19,8 @@ PROPS = ["C30"]
 ENTRIES = {
     "C30": {
         "text": "spec/HxFraming.tla models a written stream (requests; response lists of 1..3 frames with 0-, 1- and "
-                "2-byte-varint bodies, thorough: also a frame filling the size limit exactly) optionally followed by "
+                "2-byte-varint bodies; and streams padded to total sizes 2^N-1, 2^N, 2^N+1 for N = 16, 20, 23 (thorough "
+                "16..23) and limit-1, limit, limit+1 of the request and response size limits) optionally followed by "
                 "garbage (oversized length, non-protobuf body, non-varint), every choice of <= 2 (thorough 4) chunk "
                 "boundaries among the interesting offsets, truncation after every token, EOF or silent peer; TLC "
                 "checks that the reader design's result depends only on the concatenation and satisfies the "
@@ -52,18 +53,29 @@ def _round(ck, hb, over, tag):
     ck.absorb(s, classify)
 
 
+QUICK_SIZES = '{"p16-1", "p16", "p16+1", "p20-1", "p20", "p20+1", "p23-1", "p23", "p23+1", "lim-1", "lim", "lim+1"}'
+ALL_SIZES = "{" + ", ".join(f'"p{n}{d}"' for n in range(16, 24) for d in ("-1", "", "+1")) + ', "lim-1", "lim", "lim+1"}'
+
+
 def run(ck):
     hb = ck.build("h-hx")
+    # streams padded to sizes around the powers of two 64 KiB .. 8 MiB and around the size limits,
+    # complete, every <= 1 (thorough 2) chunk boundary, with and without a small frame in front
+    big = {"Classes": '{"s", "x"}', "MaxFrames": 2, "Garbage": '{"none"}', "FullOnly": "TRUE"}
     if ck.quick:
         _round(ck, hb, {"MaxFrames": 3, "MaxCuts": 2}, "main")
+        _round(ck, hb, dict(big, MaxCuts=1, Sizes=QUICK_SIZES), "sizes")
     else:
         _round(ck, hb, {"MaxFrames": 3, "MaxCuts": 4}, "main")
-        _round(ck, hb, {"MaxFrames": 1, "MaxCuts": 1, "Classes": '{"x"}'}, "limit")
+        _round(ck, hb, {"MaxFrames": 1, "MaxCuts": 1, "Classes": '{"x"}', "Sizes": '{"lim-1", "lim", "lim+1"}'}, "limit")
+        _round(ck, hb, dict(big, MaxCuts=2, Sizes=ALL_SIZES), "sizes")
     ck.cov["exhaustive"] = True
-    ck.cov["rule"] = ("every behaviour (frames, garbage, chunk boundaries, truncation, end mode) generated by TLC is "
-                      "replayed once; non-trivial = distinct behaviour with >= 1 chunk boundary or a non-clean stream")
-    ck.assumptions += ["response lists are non-empty", "requests fit REQUEST_SIZE_LIMIT, response lists fit "
-                       "RESPONSE_SIZE_LIMIT", "time limits are exercised under a paused tokio clock"]
+    ck.cov["rule"] = ("every behaviour (frames, garbage, chunk boundaries, truncation, end mode, size target) generated "
+                      "by TLC is replayed once; non-trivial = distinct behaviour with >= 1 chunk boundary or a non-clean "
+                      "stream")
+    ck.assumptions += ["response lists are non-empty", "a request / response list 'fits' iff its encoding is at most "
+                       "REQUEST_SIZE_LIMIT / RESPONSE_SIZE_LIMIT bytes; streams one byte above are cut by the reader "
+                       "(error or a prefix)", "time limits are exercised under a paused tokio clock"]
 
 
 def replay(ck):
